@@ -8,5 +8,6 @@ mkdir -p "$HERE/.build/bin" "$HERE/.build/run" "$HERE/evidence" "$HERE/replays"
 cd "$HERE/harness"
 go build -tags verif -o "$HERE/.build/bin/vcheck-std" ./cmd/vcheck
 go build -tags verif -race -o "$HERE/.build/bin/vcheck-std-race" ./cmd/vcheck
+for m in auto csv html json markdown text; do go build -tags "verif min_$m" -o "$HERE/.build/bin/min-std-$m" ./cmd/minprog; done
 "$HERE/.build/bin/vcheck-std" -list | tr '\n' ' '; echo
 echo "setup ok"
